@@ -315,44 +315,49 @@ fn main() {{
     }}));
     let stdin = std::io::stdin();
     let mut lines = stdin.lock().lines();
-    let times: usize = lines.next().unwrap().unwrap().trim().parse().unwrap();
-    TIMES.store(times, SeqCst);
-    let r = std::panic::catch_unwind(|| {{
-        let mut inj = InjectorPP::new();
-        inj.when_called(injectorpp::func!(orig, {quals} fn({param_tys}){ret_decl})).will_execute(make_fake());
-        inj
-    }});
-    let inj = match r {{
-        Ok(i) => i,
-        Err(_) => {{ println!("INSTALL-PANIC"); return; }}
-    }};
-    println!("INSTALLED");
-    for line in lines {{
-        let line = line.unwrap();
-        let v: Vec<i64> = line.split_whitespace().filter_map(|x| x.parse().ok()).collect();
-        if v.len() < 4 {{ break; }}
-        let (a, when_min, assign_k, ret_k) = (v[0], v[1], v[2], v[3]);
-        WHEN_MIN.store(when_min, SeqCst);
-        ASSIGN_K.store(assign_k, SeqCst);
-        RET_K.store(ret_k, SeqCst);
-        ASSIGN_SEQ.store(0, SeqCst);
-        RET_SEQ.store(0, SeqCst);
-        let (c0, r0, s0, o0) = (COND_EVALS.load(SeqCst), RET_EVALS.load(SeqCst), ASSIGN_EVALS.load(SeqCst), ORIG_RUNS.load(SeqCst));
-        BASE_ASSIGN.store(s0, SeqCst);
-        BASE_RET.store(r0, SeqCst);
-        let mut out: i64 = -99;
-        // announce the call first: for ABIs that cannot unwind a panic aborts the process here
-        println!("CALL {{a}}");
-        let r = std::panic::catch_unwind(std::panic::AssertUnwindSafe(|| {{ {call_expr} }}));
-        let val = match r {{ Ok(v) => format!("ok {{}}", v), Err(_) => "panic".to_string() }};
-        println!("RESULT {{val}} out {{out}} assign_seq {{}} ret_seq {{}} cond_evals {{}} ret_evals {{}} assign_evals {{}} orig_runs {{}}", ASSIGN_SEQ.load(SeqCst), RET_SEQ.load(SeqCst), COND_EVALS.load(SeqCst) - c0, RET_EVALS.load(SeqCst) - r0, ASSIGN_EVALS.load(SeqCst) - s0, ORIG_RUNS.load(SeqCst) - o0);
+    // one block per injector lifetime: "<times>", call lines, "end"; every block evaluates the SAME
+    // fake! expression again (make_fake)
+    loop {{
+        let first = match lines.next() {{ Some(Ok(l)) => l, _ => break }};
+        let times: usize = match first.trim().parse() {{ Ok(t) => t, Err(_) => break }};
+        TIMES.store(times, SeqCst);
+        let r = std::panic::catch_unwind(|| {{
+            let mut inj = InjectorPP::new();
+            inj.when_called(injectorpp::func!(orig, {quals} fn({param_tys}){ret_decl})).will_execute(make_fake());
+            inj
+        }});
+        let inj = match r {{
+            Ok(i) => i,
+            Err(_) => {{ println!("INSTALL-PANIC"); return; }}
+        }};
+        println!("INSTALLED");
+        loop {{
+            let line = match lines.next() {{ Some(Ok(l)) => l, _ => break }};
+            let v: Vec<i64> = line.split_whitespace().filter_map(|x| x.parse().ok()).collect();
+            if v.len() < 4 {{ break; }}
+            let (a, when_min, assign_k, ret_k) = (v[0], v[1], v[2], v[3]);
+            WHEN_MIN.store(when_min, SeqCst);
+            ASSIGN_K.store(assign_k, SeqCst);
+            RET_K.store(ret_k, SeqCst);
+            ASSIGN_SEQ.store(0, SeqCst);
+            RET_SEQ.store(0, SeqCst);
+            let (c0, r0, s0, o0) = (COND_EVALS.load(SeqCst), RET_EVALS.load(SeqCst), ASSIGN_EVALS.load(SeqCst), ORIG_RUNS.load(SeqCst));
+            BASE_ASSIGN.store(s0, SeqCst);
+            BASE_RET.store(r0, SeqCst);
+            let mut out: i64 = -99;
+            // announce the call first: for ABIs that cannot unwind a panic aborts the process here
+            println!("CALL {{a}}");
+            let r = std::panic::catch_unwind(std::panic::AssertUnwindSafe(|| {{ {call_expr} }}));
+            let val = match r {{ Ok(v) => format!("ok {{}}", v), Err(_) => "panic".to_string() }};
+            println!("RESULT {{val}} out {{out}} assign_seq {{}} ret_seq {{}} cond_evals {{}} ret_evals {{}} assign_evals {{}} orig_runs {{}}", ASSIGN_SEQ.load(SeqCst), RET_SEQ.load(SeqCst), COND_EVALS.load(SeqCst) - c0, RET_EVALS.load(SeqCst) - r0, ASSIGN_EVALS.load(SeqCst) - s0, ORIG_RUNS.load(SeqCst) - o0);
+        }}
+        println!("EXIT");
+        let r = std::panic::catch_unwind(std::panic::AssertUnwindSafe(move || drop(inj)));
+        println!("{{}}", if r.is_ok() {{ "DROPPED" }} else {{ "DROP-PANIC" }});
+        let mut out2: i64 = -99;
+        let back = {after_expr};
+        println!("AFTER {{back}} out {{out2}}");
     }}
-    println!("EXIT");
-    let r = std::panic::catch_unwind(std::panic::AssertUnwindSafe(move || drop(inj)));
-    println!("{{}}", if r.is_ok() {{ "DROPPED" }} else {{ "DROP-PANIC" }});
-    let mut out2: i64 = -99;
-    let back = {after_expr};
-    println!("AFTER {{back}} out {{out2}}");
     // type check across ABIs: same parameters and result, different ABI => must be refused
     let r = std::panic::catch_unwind(|| {{
         let mut inj = InjectorPP::new();
@@ -446,24 +451,24 @@ def write_if_changed(p, s):
 # --------------------------------------------------------------------------------------------
 # reference model + runner for arm scripts
 
-def run_arm(exe, times, calls, timeout=20):
-    inp = f"{times}\n" + "".join(f"{a} {w} {k} {r}\n" for (a, w, k, r) in calls) + "end\n"
+def run_arm(exe, times, calls, timeout=20, more_blocks=()):
+    """one lifetime (times, calls), optionally followed by further lifetimes [(times, calls), ...]"""
+    inp = ""
+    for (t, cs) in [(times, calls)] + list(more_blocks):
+        inp += f"{t}\n" + "".join(f"{a} {w} {k} {r}\n" for (a, w, k, r) in cs) + "end\n"
     p = subprocess.run([exe], input=inp, stdout=subprocess.PIPE, stderr=subprocess.PIPE, text=True, timeout=timeout)
     return p.returncode, p.stdout.splitlines(), p.stderr.splitlines()
 
 
-def model_and_compare(opts, times, calls, rc, out, err, unwinds):
-    """returns (None | (signature, message), classes exercised)"""
-    panics = [l[6:] for l in err if l.startswith("PANIC ")]
-    ex = {"when_rejected": False, "when_accepted": False, "two_ret_k": set(), "over": False}
-    if not out or out[0] != "INSTALLED":
-        return ("install-failed", f"installation of the arm's fake failed: stdout {out[:3]} stderr {err[:3]}"), ex
-    count = 0
-    li = 1
-    pi = 0
+def _model_block(opts, times, calls, rc, out, err, unwinds, li, pi, panics, ex, last):
+    """one injector lifetime, starting at out[li] == "INSTALLED"; returns (verdict, li, pi)"""
+    if li >= len(out) or out[li] != "INSTALLED":
+        return ("install-failed", f"installation of the arm's fake failed: stdout {out[li:li+3]} stderr {err[:3]}"), li, pi
+    count = 0  # every installation counts from zero
+    li += 1
     for ci, (a, wmin, ak, rk) in enumerate(calls):
         if li >= len(out) or not out[li].startswith("CALL "):
-            return ("protocol", f"call {ci}: missing CALL line; stdout {out[-4:]} stderr {err[-3:]}"), ex
+            return ("protocol", f"call {ci}: missing CALL line; stdout {out[-4:]} stderr {err[-3:]}"), li, pi
         li += 1
         rejected = opts["when"] and not (a >= wmin)
         over = (not rejected) and opts["times"] and count >= times
@@ -480,15 +485,15 @@ def model_and_compare(opts, times, calls, rc, out, err, unwinds):
         if expect_panic and not unwinds:
             # a panic in an ABI that cannot unwind aborts the process: this must be the last call
             if rc == 0 or li < len(out) and out[li].startswith("RESULT ok"):
-                return (("when-not-enforced" if rejected else "times-not-enforced"), f"call {ci} (a={a}, when_min={wmin}, calls so far {count - 1}, times {times}) should have panicked ({want_msg}) but: {out[li] if li < len(out) else 'no output'}"), ex
-            hit = [p for p in panics if "##" in p]
+                return (("when-not-enforced" if rejected else "times-not-enforced"), f"call {ci} (a={a}, when_min={wmin}, calls so far {count - 1}, times {times}) should have panicked ({want_msg}) but: {out[li] if li < len(out) else 'no output'}"), li, pi
+            hit = [p for p in panics[pi:] if "##" in p]
             if not hit:
-                return ("crash", f"call {ci}: process died (rc {rc}) without a panic: stderr {err[-3:]}"), ex
+                return ("crash", f"call {ci}: process died (rc {rc}) without a panic: stderr {err[-3:]}"), li, pi
             if "assign_evals=0 ret_evals=0" not in hit[0]:
-                return ("rejected-call-has-side-effects", f"call {ci} (a={a}, when_min={wmin}, times {times}) was rejected ({want_msg}) but `assign`/`returns` had already been evaluated when the panic was raised: {hit[0]!r}"), ex
-            return None, ex
+                return ("rejected-call-has-side-effects", f"call {ci} (a={a}, when_min={wmin}, times {times}) was rejected ({want_msg}) but `assign`/`returns` had already been evaluated when the panic was raised: {hit[0]!r}"), li, pi
+            return None, len(out), pi
         if li >= len(out) or not out[li].startswith("RESULT "):
-            return ("crash", f"call {ci}: no RESULT line (rc {rc}); stdout tail {out[-3:]} stderr tail {err[-4:]}"), ex
+            return ("crash", f"call {ci}: no RESULT line (rc {rc}); stdout tail {out[-3:]} stderr tail {err[-4:]}"), li, pi
         f = out[li].split()
         li += 1
         kv = {f[i]: f[i + 1] for i in range(3 if f[1] == "ok" else 2, len(f) - 1, 2)}
@@ -499,59 +504,79 @@ def model_and_compare(opts, times, calls, rc, out, err, unwinds):
         cev, rev, sev, oruns = int(kv["cond_evals"]), int(kv["ret_evals"]), int(kv["assign_evals"]), int(kv["orig_runs"])
         ctx = f"call {ci} (a={a}, when_min={wmin}, assign_k={ak}, ret_k={rk}, matching calls so far {count - (0 if rejected else 1)}, times {times if opts['times'] else None}): observed `{out[li-1]}`"
         if oruns != 0:
-            return ("original-body-ran", ctx), ex
+            return ("original-body-ran", ctx), li, pi
         if expect_panic:
             if status != "panic":
-                return (("when-not-enforced" if rejected else "times-not-enforced"), ctx + f" -- expected a panic ({want_msg})"), ex
+                return (("when-not-enforced" if rejected else "times-not-enforced"), ctx + f" -- expected a panic ({want_msg})"), li, pi
             # (the wording of the per-call panic is not part of the statement)
             pi += 1
             if outv != -99 or sev != 0 or aseq != 0:
-                return ("rejected-call-has-side-effects", ctx + " -- a rejected call must not run `assign`"), ex
+                return ("rejected-call-has-side-effects", ctx + " -- a rejected call must not run `assign`"), li, pi
             if rev != 0 or rseq != 0:
-                return ("rejected-call-evaluates-returns", ctx + " -- a rejected call must not evaluate `returns`"), ex
+                return ("rejected-call-evaluates-returns", ctx + " -- a rejected call must not evaluate `returns`"), li, pi
             continue
         if status != "ok":
-            return ("unexpected-panic", ctx + f" -- panic {panics[pi] if pi < len(panics) else None!r}"), ex
+            return ("unexpected-panic", ctx + f" -- panic {panics[pi] if pi < len(panics) else None!r}"), li, pi
         if opts["when"] and cev != 1:
-            return ("when-evaluated-wrong-number-of-times", ctx), ex
+            return ("when-evaluated-wrong-number-of-times", ctx), li, pi
         if opts["assign"]:
             if outv != a + ak or sev != 1 or aseq == 0:
-                return ("assign-not-run", ctx + f" -- expected out == {a + ak}"), ex
+                return ("assign-not-run", ctx + f" -- expected out == {a + ak}"), li, pi
         elif outv != -99:
-            return ("out-written-without-assign", ctx), ex
+            return ("out-written-without-assign", ctx), li, pi
         if opts["returns"]:
             ex["two_ret_k"].add(rk)
             if value != 2 * a + rk:
-                return ("returns-not-evaluated-afresh", ctx + f" -- expected {2 * a + rk} (this call's arguments and RET_K)"), ex
+                return ("returns-not-evaluated-afresh", ctx + f" -- expected {2 * a + rk} (this call's arguments and RET_K)"), li, pi
             if rev != 1:
-                return ("returns-evaluated-wrong-number-of-times", ctx), ex
+                return ("returns-evaluated-wrong-number-of-times", ctx), li, pi
             if opts["assign"] and not (0 < aseq < rseq):
-                return ("assign-not-before-returns", ctx + " -- assign must run before returns is evaluated"), ex
+                return ("assign-not-before-returns", ctx + " -- assign must run before returns is evaluated"), li, pi
         elif value != 0:
-            return ("unit-arm-returned-value", ctx), ex
+            return ("unit-arm-returned-value", ctx), li, pi
     # exit
     if li >= len(out) or out[li] != "EXIT":
-        return ("protocol", f"missing EXIT; stdout tail {out[-3:]} stderr tail {err[-3:]}"), ex
+        return ("protocol", f"missing EXIT; stdout tail {out[-3:]} stderr tail {err[-3:]}"), li, pi
     li += 1
     dropline = out[li] if li < len(out) else ""
     want_exit_panic = opts["times"] and count != times
     if want_exit_panic:
         if dropline != "DROP-PANIC":
-            return ("exit-verification-missed", f"{count} matching calls against times {times}, but scope exit did not panic ({dropline!r})"), ex
+            return ("exit-verification-missed", f"{count} matching calls against times {times}, but scope exit did not panic ({dropline!r})"), li, pi
         msg = panics[pi] if pi < len(panics) else ""
-        nums = re.findall(r"\d+", msg)
+        pi += 1
+        nums = re.findall(r"\d+", msg.split("##")[0])
         if str(times) not in nums or str(count) not in nums:
-            return ("exit-message-lacks-numbers", f"exit panic {msg!r} does not name both {times} and {count}"), ex
+            return ("exit-message-lacks-numbers", f"exit panic {msg!r} does not name both {times} and {count}"), li, pi
     else:
         if dropline != "DROPPED":
-            return ("exit-verification-false-alarm", f"{count} matching calls, times {times if opts['times'] else None}: scope exit gave {dropline!r} {panics[pi:] }"), ex
+            return ("exit-verification-false-alarm", f"{count} matching calls, times {times if opts['times'] else None}: scope exit gave {dropline!r} {panics[pi:] }"), li, pi
     after = out[li + 1] if li + 1 < len(out) else ""
     want_after = "AFTER 0 out -1" if opts["unit"] else "AFTER -7 out -1"
     if after != want_after:
-        return ("original-not-back", f"after the scope the original gave `{after}`, expected `{want_after}`"), ex
-    xabi = out[li + 2] if li + 2 < len(out) else ""
-    if xabi != "XABI refused":
-        return ("fake-accepted-on-target-of-other-abi", f"the arm's fake (declared {opts['quals'] or 'fn'}) was installed on a target that differs only in ABI: `{xabi}`"), ex
+        return ("original-not-back", f"after the scope the original gave `{after}`, expected `{want_after}`"), li, pi
+    if last:
+        xabi = out[li + 2] if li + 2 < len(out) else ""
+        if xabi != "XABI refused":
+            return ("fake-accepted-on-target-of-other-abi", f"the arm's fake (declared {opts['quals'] or 'fn'}) was installed on a target that differs only in ABI: `{xabi}`"), li, pi
+    return None, li + 2, pi
+
+
+def model_and_compare(opts, times, calls, rc, out, err, unwinds, more_blocks=()):
+    """returns (None | (signature, message), classes exercised); blocks = consecutive lifetimes that
+    evaluate the same fake! expression"""
+    panics = [l[6:] for l in err if l.startswith("PANIC ")]
+    ex = {"when_rejected": False, "when_accepted": False, "two_ret_k": set(), "over": False}
+    blocks = [(times, calls)] + list(more_blocks)
+    li, pi = 0, 0
+    for bi, (t, cs) in enumerate(blocks):
+        verdict, li, pi = _model_block(opts, t, cs, rc, out, err, unwinds, li, pi, panics, ex, bi + 1 == len(blocks))
+        if verdict is not None:
+            if bi > 0:
+                verdict = (verdict[0] + "/in-later-lifetime-of-same-site", f"lifetime {bi} of {len(blocks)} evaluating the same fake! expression: " + verdict[1])
+            return verdict, ex
+        if li >= len(out) and bi + 1 < len(blocks):
+            return None, ex  # the process ended (abort of a non-unwinding arm) as predicted
     return None, ex
 
 
@@ -616,35 +641,53 @@ def cmd_c08(out_path, prop="C08"):
 
         call = st.tuples(st.integers(-50, 50), st.integers(-2, 2), st.integers(-100, 100), st.integers(-100, 100)).map(lambda t: (t[0], t[0] + t[1], t[2], t[3]))
 
+        multi = prop == "C07"
+        block = st.tuples(st.integers(0, 4), st.lists(call, min_size=0 if multi else 1, max_size=8 if multi else 12))
+
         @seed(SEED * 1000 + m["idx"])
         @settings(max_examples=n_scripts, database=None, deadline=None, derandomize=False, suppress_health_check=list(HealthCheck), phases=[Phase.generate, Phase.shrink])
-        @given(times=st.integers(0, 4), calls=st.lists(call, min_size=1, max_size=12))
-        def prop_arm(times, calls):
+        @given(blocks=st.lists(block, min_size=2 if multi else 1, max_size=3 if multi else 1))
+        def prop_arm(blocks):
             if not unwinds:
-                # a predicted panic aborts: keep at most one panicking call, as the last one
-                cnt = 0
-                cut = len(calls)
-                for i, (a, w, k, r) in enumerate(calls):
-                    rej = o["when"] and not (a >= w)
-                    over = (not rej) and o["times"] and cnt >= times
-                    if not rej:
-                        cnt += 1
-                    if rej or over:
-                        cut = i + 1
+                # a predicted panic aborts: keep at most one panicking call, as the last one of
+                # the last lifetime
+                kept = []
+                for (t, calls) in blocks:
+                    cnt = 0
+                    cut = len(calls)
+                    stop = False
+                    for i, (a, w, k, r) in enumerate(calls):
+                        rej = o["when"] and not (a >= w)
+                        over = (not rej) and o["times"] and cnt >= t
+                        if not rej:
+                            cnt += 1
+                        if rej or over:
+                            cut = i + 1
+                            stop = True
+                            break
+                    kept.append((t, calls[:cut]))
+                    if stop:
                         break
-                calls = calls[:cut]
-            rc, out, err = run_arm(exe, times, calls)
-            verdict, ex = model_and_compare(o, times, calls, rc, out, err, unwinds)
-            rec.eval(lambda: {"arm": m["idx"], "line": m["line"], "options": label, "times": times, "calls": calls, "stdout_tail": out[-3:]})
+                blocks = kept
+            (times, calls), more = blocks[0], blocks[1:]
+            rc, out, err = run_arm(exe, times, calls, more_blocks=more)
+            verdict, ex = model_and_compare(o, times, calls, rc, out, err, unwinds, more_blocks=more)
+            rec.eval(lambda: {"arm": m["idx"], "line": m["line"], "options": label, "times": times, "calls": calls, "later_lifetimes": more, "stdout_tail": out[-3:]})
             rec.cls(label)
-            full = (not o["when"] or (ex["when_rejected"] and ex["when_accepted"])) and (not o["returns"] or len(ex["two_ret_k"]) >= 2) and (not o["times"] or ex["over"])
-            if full and unwinds or (not unwinds and (ex["when_rejected"] or ex["over"] or len(ex["two_ret_k"]) >= 2)):
-                rec.nontriv([m["idx"], times, calls])
+            if multi:
+                absorbed = sum(1 for (a, w, k, r) in calls if not (o["when"] and not (a >= w)))
+                rec.cls(f"lifetimes={len(blocks)}" + ("/earlier-lifetime-absorbed-calls" if absorbed and more else ""))
+                if absorbed and more and any(cs for (_, cs) in more):
+                    rec.nontriv([m["idx"], blocks])
+            else:
+                full = (not o["when"] or (ex["when_rejected"] and ex["when_accepted"])) and (not o["returns"] or len(ex["two_ret_k"]) >= 2) and (not o["times"] or ex["over"])
+                if full and unwinds or (not unwinds and (ex["when_rejected"] or ex["over"] or len(ex["two_ret_k"]) >= 2)):
+                    rec.nontriv([m["idx"], times, calls])
             if verdict is not None:
-                msg = rec.fail(f"{prop}/{verdict[0]}/{label}", f"arm {m['idx']} (macros.rs line {m['line']}, {label}), times {times}, script {calls}: {verdict[1]}")
+                msg = rec.fail(f"{prop}/{verdict[0]}/{label}", f"arm {m['idx']} (macros.rs line {m['line']}, {label}), times {times}, script {calls}" + (f", then lifetimes {more} evaluating the same fake! expression" if more else "") + f": {verdict[1]}")
                 if msg:
                     rec.frozen = True
-                    failure["case"] = {"arm": m["idx"], "line": m["line"], "options": label, "times": times, "calls": [list(c) for c in calls]}
+                    failure["case"] = {"arm": m["idx"], "line": m["line"], "options": label, "times": times, "calls": [list(c) for c in calls], "more": [[t, [list(c) for c in cs]] for (t, cs) in more]}
                     failure["msg"] = msg
                     raise AssertionError(msg)
 
@@ -844,8 +887,9 @@ def cmd_replay(path):
         print("replay: arm compiles now; property holds on this case")
         return 0
     calls = [tuple(c) for c in case["calls"]]
-    rc, out, err = run_arm(res[name]["exe"], case["times"], calls)
-    verdict, _ = model_and_compare(opts, case["times"], calls, rc, out, err, "extern" not in opts["quals"])
+    more = [(t, [tuple(c) for c in cs]) for (t, cs) in case.get("more", [])]
+    rc, out, err = run_arm(res[name]["exe"], case["times"], calls, more_blocks=more)
+    verdict, _ = model_and_compare(opts, case["times"], calls, rc, out, err, "extern" not in opts["quals"], more_blocks=more)
     if verdict is None:
         print("replay: property holds on this case")
         return 0
